@@ -34,6 +34,10 @@ type Prog struct {
 
 	cg  *CallGraph
 	own *Own
+
+	pathCache   map[string][]*Path
+	carriedInfo map[string]map[int]carriedInfo
+	lastPathKey string
 }
 
 type LoadConfig struct {
